@@ -434,12 +434,29 @@ pub fn conflict_defs() -> BoxedStrategy<DefSpec> {
     let prio = prop::option::weighted(0.5, 1usize..=4);
     // number of leading patterns that become skips: ties among skips only, between a skip and a token, among tokens
     let n_skips = prop_oneof![6 => Just(0usize), 2 => Just(1usize), 2 => Just(2usize), 1 => Just(3usize)];
-    (vec((pat, prio), 2..=6), n_skips, any::<bool>())
-        .prop_map(|(pats, n_skips, utf8)| {
+    (vec((pat, prio), 2..=6), n_skips, any::<bool>(), prop::option::weighted(0.25, any::<u8>()), vec(prop::bool::weighted(0.25), 6))
+        .prop_map(|(mut pats, n_skips, utf8, dup, share)| {
+            // a pattern written twice (same text, same priority): next to its original or at the end
+            if let Some(d) = dup {
+                let k = d as usize % pats.len();
+                let copy = pats[k].clone();
+                if d % 2 == 0 {
+                    pats.insert(k + 1, copy);
+                } else {
+                    pats.push(copy);
+                }
+            }
             let mut skips = vec![];
-            let mut variants = vec![];
+            let mut variants: Vec<Vec<PatSpec>> = vec![];
             for (i, (mut p, pr)) in pats.into_iter().enumerate() {
                 p.priority = pr;
+                // several patterns stacked on one variant
+                if i >= n_skips && share[i % share.len()] {
+                    if let Some(last) = variants.last_mut() {
+                        last.push(p);
+                        continue;
+                    }
+                }
                 if i < n_skips {
                     p.kind = crate::spec::PatKind::Regex;
                     if p.lit.text.is_empty() {
@@ -627,8 +644,15 @@ pub fn literal_defs() -> BoxedStrategy<DefSpec> {
         p.allow_greedy = greedy;
         p
     });
+    // verbose-mode regexes (whitespace and comments are not part of the pattern), with ignore(case)
+    let verbose = select(vec!["(?x) k [0-9]+ # digits", "(?x)\n k # first\n s+ # then", "(?x) [a-c] \\x20 z", "(?x: a b ) c", "(?x) K # trailing comment"]).prop_map(|t| {
+        let mut p = PatSpec::regex(LitSpec::str(t));
+        p.ignore_case = true;
+        (vec![], vec![p])
+    });
     // shapes: single token; single regex ignore(case); skip ignore(case) + token; two tokens with distinct priorities
     let plain = prop_oneof![
+        1 => verbose,
         4 => tok.clone().prop_map(|t| (vec![], vec![t])),
         2 => rx.clone().prop_map(|r| (vec![], vec![r])),
         2 => (rx.clone(), tok.clone()).prop_map(|(r, mut t)| {
